@@ -142,6 +142,20 @@ def rest(ctx):
             good = good and p.retval[0] == "sub" and p.retval[2] == ("slice", N.NONE, cnt, N.NONE) and last is not None and last[0] == "sub" \
                 and last[2] == ("slice", cnt, N.NONE, N.NONE) and last[1] == p.retval[1]
     ctx.ob("C10.R4", fi, good and n >= 1, "read(count) hands out the first `count` units of the buffer and keeps the rest", key="read fifo")
+    # a sized read that meets the end of the substream with fewer than `count` units buffered: nothing is handed out, nothing is consumed, tell() stands
+    eof, adv = [], True
+    for p in paths:
+        if not (p.returns and N.mk_cmp("is not", cnt, N.NONE) in p.guards()):
+            continue
+        short = any(c[0] == "bool" and c[1] == "or" and any(x[0] == "cmp" and x[1] == "is" and x[2][0] == "rawio" and x[3] == N.NONE for x in c[2]) for c in p.guards())
+        w = [e for e in p.events if e.kind == "SELFWRITE" and e["attr"] in ("rbuffer", "sincereadwritten")]
+        if short:
+            eof.append(p.retval == N.const(b"") and not any(e["attr"] == "sincereadwritten" or (e["attr"] == "rbuffer" and e["value"][0] == "sub") for e in w))
+        else:
+            sw = [e["value"] for e in w if e["attr"] == "sincereadwritten"]
+            adv = adv and len(sw) == 1 and sw[0] in (N.mk_add(N.selfattr("sincereadwritten"), cnt), N.mk_add(N.selfattr("sincereadwritten"), ("call", ("free", "len"), (p.retval,), ())))
+    ctx.ob("C10.R4", fi, bool(eof) and all(eof), "read(count) at the end of the substream returns b'' and leaves the pending units and tell() untouched (the caller reports the short read; a later region member must not see a shifted buffer)", key="read eof")
+    ctx.ob("C10.R4", fi, adv, "a successful read(count) advances tell() by exactly the units handed out", key="read tell")
     fi, paths = own_method_paths(ctx, "RestreamedBytesIO", "write")
     data = ("param", "data")
     first = [p.events[0] for p in paths if p.events]
@@ -167,7 +181,7 @@ def rest(ctx):
         g = ("call", ("free", "len"), (buf,), ())
         bad = [p for p in paths if g in p.guards()]
         ctx.ob("C10.R4", fi, bool(bad) and all(p.outcome[0] == "raise" for p in bad), "close() refuses a non-empty %s" % buf[2], key="close %s" % buf[2])
-    ctx.floor("C10.R4", 14)
+    ctx.floor("C10.R4", 16)
 
     # ---- R3: lookup tables inverse by construction
     rel = [r for r in M.modules if r.endswith("binary.py")][0]
@@ -176,9 +190,6 @@ def rest(ctx):
         v = assigns.get(name)
         return ast.unparse(v) if v is not None else None
     fi_b = M.function("bytes2bits")
-    ctx.ob("C10.R3", fi_b, comp_src("BYTES2BITS_CACHE") == "{i: integer2bits(i, 8) for i in range(256)}", "BYTES2BITS_CACHE[i] is the 8-bit MSB-first pattern integer2bits(i, 8)", key="BYTES2BITS_CACHE", loc=rel)
-    ctx.ob("C10.R3", fi_b, comp_src("BITS2BYTES_CACHE") == "{bytes2bits(int2byte(i)): i for i in range(256)}", "BITS2BYTES_CACHE is the inversion of bytes2bits on single bytes", key="BITS2BYTES_CACHE", loc=rel)
-    ctx.ob("C10.R3", fi_b, comp_src("SWAPBITSINBYTES_CACHE") == "{i: byte2int(bits2bytes(swapbytes(bytes2bits(int2byte(i))))) for i in range(256)}", "SWAPBITSINBYTES_CACHE[i] reverses the bit-string of byte i", key="SWAPBITSINBYTES_CACHE", loc=rel)
     paths = paths_of(ctx, fi_b)
     r = N.canon_lids(paths[0].retval) if len(paths) == 1 else None
     ok = r is not None and r[0] == "call" and r[1] == ("attr", N.const(b""), "join") and r[2][0][0] == "comp" and \
@@ -198,6 +209,9 @@ def rest(ctx):
     # BitsInteger duality is C01's instance; here: chain positions
     from . import C01
     C01.check_integer_duality(ctx, "BitsInteger", rule="C10.R3")
+    # ---- R5: the helpers themselves (MSB-first two's complement, byte groups)
+    from . import C10_helpers
+    C10_helpers.run(ctx, "C10.R5")
     ctx.floor("C10.R3", 6)
 
     # positive control: swapped roles in the streaming branch
